@@ -86,7 +86,9 @@ def pool_programs(r):
     li_small = '%s = 5\n    li t0, %s\n%s:\n    li t1, %s + 1\n    j %s\n' % (kon2, kon2, lab, kon2, lab)
     li_big = '%s = 0x12345\n    li t0, %s\n%s:\n    li t1, %s + 1\n    j %s\n' % (kon2, kon2, lab, kon2, lab)
     multi_alias = 'RA1 = t0\nRB1 = s0\nRC1 = a5\n%s:\n%s:\n    add RA1, RB1, RC1\n    sub RB1, RB1, RC1\n    sw RC1, 4(RB1)\n    beq RB1, x0, %s\n    jal x0, %s\n' % (lab, lab2, lab, lab2)
-    entries = [('clash', clash), ('blob', blobprog), ('li-small', li_small), ('li-big', li_big), ('multi-alias', multi_alias), ('definer', definer), ('user', user), ('user-labels', user_labels_only), ('alias-definer', alias_def), ('alias-user', alias_user),
+    walrus_def = '%s = [nleak := %d for _ in [0]][0] * 4\n%s:\n    addi t0, t0, %s\n' % (kon, val % 500, lab, kon)
+    walrus_use = '%s:\n    addi t0, t0, nleak\n    nop\n' % lab
+    entries = [('clash', clash), ('blob', blobprog), ('walrus-definer', walrus_def), ('walrus-user', walrus_use), ('li-small', li_small), ('li-big', li_big), ('multi-alias', multi_alias), ('definer', definer), ('user', user), ('user-labels', user_labels_only), ('alias-definer', alias_def), ('alias-user', alias_user),
                ('shifted', shifted), ('compressy', compressy), ('redefine', redefine)]
     # failing programs, one per fault class
     for cls in r.sample(sorted(c for c in progs.FAULTS if c != 'duplicate-label'), 3):
@@ -142,7 +144,7 @@ def make_history(r, nsteps=None):
             if ops and ops[-1]['op'] == 'assemble' and r.random() < 0.35:
                 prev = pool[ops[-1]['prog']]['kind']
                 want = {'definer': ('user', 'user-labels', 'redefine'), 'alias-definer': ('alias-user',), 'tree': ('user', 'user-labels'),
-                        'li-small': ('li-big',), 'li-big': ('li-small',), 'multi-alias': ('alias-user', 'user-labels')}.get(prev)
+                        'li-small': ('li-big',), 'li-big': ('li-small',), 'walrus-definer': ('walrus-user',), 'multi-alias': ('alias-user', 'user-labels')}.get(prev)
                 if want:
                     cands = [j for j, p in enumerate(pool) if p['kind'] in want]
                     if cands:
@@ -495,7 +497,7 @@ def run_scenario(scen, keep_events=False):
             res.hit('step:after-write')
         if prev_class == 'chdir':
             res.hit('step:after-chdir')
-        if prev_kind in ('definer', 'alias-definer', 'tree') and prog['kind'] in ('user', 'user-labels', 'alias-user', 'redefine'):
+        if prev_kind in ('definer', 'alias-definer', 'tree', 'walrus-definer') and prog['kind'] in ('user', 'user-labels', 'alias-user', 'redefine', 'walrus-user'):
             res.hit('step:pair-user-after-definer')
             interesting = True
         if rec.get('fs_fired'):
